@@ -17,13 +17,14 @@ VARIABLES tid, l
 tvars == <<c, tid, l>>
 T == Traces[tid]
 
-TInit == tid \in 1..NT /\ l = 1 /\ CInitH(T.cfg.hook)
+TInit == tid \in 1..NT /\ l = 1 /\ CInitHN(T.cfg.hook, T.cfg.noise)
 
 \* operations of the connection-management API must match one to one; API calls are compared
 \* only when the gate refused them
 Mgmt(dn) == SelectSeq(dn, LAMBDA d : d[1] # "api")
 ClassOK(m, d) == \/ m[2] = d[2]
                  \/ (m[2] = "ANY" /\ d[3])
+                 \/ (m[2] = "ANY-" /\ d[3] /\ d[2] # "BadNameAPIError")      \* any connection error but the bad-name one
 SameOps(md, ed) ==
   /\ Len(md) = Len(ed)
   /\ \A i \in 1..Len(md) : \E j \in 1..Len(ed) : md[i][1] = ed[j][1] /\ ClassOK(md[i], ed[j])
@@ -54,7 +55,7 @@ Diff(y, e) ==
   (IF y.gate = "failed" /\ ~(Len(Apis(e.dn)) = 1 /\ Apis(e.dn)[1][3]) THEN {"gate"} ELSE {})
 
 Internal(x) ==
-  UNION {PhaseEnd(x, j, "ok") \cup PhaseEnd(x, j, "err") : j \in 1..Len(x.phs)} \cup Progress(x) \cup Noop(x)
+  UNION {PhaseEnd(x, j, "ok") \cup PhaseEnd(x, j, "err") \cup PhaseEnd(x, j, "badname") : j \in 1..Len(x.phs)} \cup Progress(x) \cup Noop(x)
   \cup UNION {EnvClose(x, i) : i \in 1..N(x)} \cup UNION {DiscEnd(x, i) : i \in 1..N(x)}
 
 Apply(x, e) ==
@@ -65,6 +66,9 @@ Apply(x, e) ==
     [] e.c = "UserApi"        -> UserApi(x)
     \* the peer closed the socket of connection i (0: a transport whose connection had let go of it already):
     \* a connection that is alive does not survive that
+    [] e.c = "UserExpect"     -> UserExpect(x, e.a.n)
+    \* (the chunk that carries it may carry more: whatever else a device chunk can cause is allowed in the same callback)
+    [] e.c = "EnvHello"       -> LET Y == EnvHello(x, e.a.i, e.a.n) IN Y \cup UNION {Internal(y) : y \in Y}
     [] e.c = "EnvWriteFail"   -> EnvWriteFail(x, e.a.i)
     [] e.c = "EnvReset"       -> EnvReset(x, e.a.i)
     [] e.c = "EnvLoss"        -> IF e.a.i = 0 \/ x.st[e.a.i] = "closed" THEN Internal(x) ELSE EnvClose(x, e.a.i)
